@@ -21,6 +21,8 @@ WorkerChecks(r) ==
     \cup (IF r.returned /\ r.ms <= BoundMs THEN {} ELSE {"NoPromptReturn"})
     \cup (IF r.late = 0 THEN {} ELSE {"DeliveredAfterReturn"})
     \cup (IF r.returned /\ ~r.errctx THEN {"WrongError"} ELSE {})
+    \* a hand-off that had to wait (the correlator busy, nobody cancelling) still delivers the login (C05)
+    \cup (IF "login" \in DOMAIN r /\ r.login = "lost" THEN {"LoginDropped"} ELSE {})
 
 Failures == {"sshd-eof", "audit-eof", "sshd-eof-partial", "audit-eof-partial", "audit-malformed", "audit-unknown-type",
              "output-fails", "output-breaks-inflight", "output-breaks-staggered", "sshd-not-fifo", "sshd-missing",
